@@ -60,18 +60,24 @@ try:
     if not confirmed:
         print(o0[-500:]); print(out[-500:]); print(o1[-500:])
 finally:
-    sh("git -C /repo worktree remove --force %s" % W)
+    if "--alt" not in sys.argv:
+        sh("git -C /repo worktree remove --force %s" % W)
+ALT = "--alt" in sys.argv        # development aid: run the check against the scratch worktree (when /repo is busy)
 if report.get("confirmed"):
     # run the check(s) against /repo with the change applied
-    rc, out = sh("git -C /repo status --porcelain")
-    assert out.strip() == "", "/repo is not clean"
-    rc, out = sh("git -C /repo apply %s" % patch)
-    assert rc == 0, out
+    if not ALT:
+        rc, out = sh("git -C /repo status --porcelain")
+        assert out.strip() == "", "/repo is not clean"
+        rc, out = sh("git -C /repo apply %s" % patch)
+        assert rc == 0, out
     try:
         report["checks"] = {}
         for c in checks:
             t = time.time()
-            p = subprocess.run("./check %s quick" % c, shell=True, cwd="/verif", stdout=subprocess.PIPE, stderr=subprocess.STDOUT, text=True)
+            cenv = {k: v for k, v in os.environ.items() if k not in ("CARGO_TARGET_DIR", "RUSTFLAGS")}
+            if ALT:
+                cenv.update(VERIF_REPO=W, VERIF_WORK="/tmp/work-altm", VERIF_EVIDENCE="/tmp/ev-altm")
+            p = subprocess.run("./check %s quick" % c, shell=True, cwd="/verif", env=cenv, stdout=subprocess.PIPE, stderr=subprocess.STDOUT, text=True)
             rc, out = p.returncode, p.stdout
             nv = out.count("VIOLATION property=")
             report["checks"][c] = {"exit": rc, "violation_lines": nv, "wall_s": round(time.time() - t), "first": [l for l in out.splitlines() if "what:" in l][:2]}
@@ -79,7 +85,10 @@ if report.get("confirmed"):
             if rc not in (0, 1):
                 print(out[-1500:])
     finally:
-        sh("git -C /repo checkout -- .")
+        if ALT:
+            sh("git -C /repo worktree remove --force %s" % W)
+        else:
+            sh("git -C /repo checkout -- .")
     d = os.path.join("/verif/seeded", name)
     os.makedirs(d, exist_ok=True)
     shutil.copy(patch, d)
